@@ -26,6 +26,44 @@ def build(job, E):
     return tasks
 
 
+def two_labs(job, labtech, E):
+    """two Labs with different contexts alive at the same time in this process (one per thread); each Lab's tasks
+    must see their own Lab's context"""
+    tmp = tempfile.mkdtemp(prefix='verif-c16b-')
+    rec = dict(job=job, status='returned', results={}, caller=dict(pid=os.getpid(), thread_id=threading.get_ident()),
+               keys={}, keys_after={}, stored={})
+    try:
+        flags = [os.path.join(tmp, f'f{i}') for i in range(4)]
+        # A1 starts, waits for B1 to have started; B1 waits for A1's flag (already there); A2/B2 run afterwards
+        plans = {
+            'A': [E.EnvWait(k=0, wait_for=flags[1], touch=flags[0]), E.EnvWait(k=1, wait_for=flags[1], touch=flags[2])],
+            'B': [E.EnvWait(k=2, wait_for=flags[0], touch=flags[1]), E.EnvWait(k=3, wait_for=flags[0], touch=flags[3])],
+        }
+        results = {}
+        errors = {}
+
+        def run(tag):
+            try:
+                lab = labtech.Lab(storage=None, runner_backend=job['backend'], max_workers=1, context={'lab_tag': tag})
+                results[tag] = lab.run_tasks(plans[tag], disable_progress=True, disable_top=True)
+            except BaseException as e:
+                errors[tag] = type(e).__name__ + ': ' + str(e)[:200]
+        ts = [threading.Thread(target=run, args=(tag,)) for tag in ('A', 'B')]
+        for t in ts:
+            t.start()
+        for t in ts:
+            t.join(60)
+        seen = {}
+        for tag, res in results.items():
+            for task, o in res.items():
+                seen[str(task.k)] = dict(lab=tag, saw=o.get('lab_tag'))
+        rec['two_labs_seen'] = seen
+        rec['two_labs_errors'] = errors
+    finally:
+        shutil.rmtree(tmp, ignore_errors=True)
+    return rec
+
+
 def main():
     jobs = json.load(open(sys.argv[1]))
     import labtech
@@ -33,6 +71,9 @@ def main():
     labtech.logger.setLevel(logging.CRITICAL)
     out = []
     for job in jobs:
+        if job.get('two_labs'):
+            out.append(two_labs(job, labtech, E))
+            continue
         E.MARK = 0
         tmp = tempfile.mkdtemp(prefix='verif-c16-')
         rec = dict(job=job)
@@ -46,7 +87,7 @@ def main():
             try:
                 res = lab.run_tasks(req, disable_progress=True, disable_top=True)
                 rec['status'] = 'returned'
-                rec['results'] = {str(t.k): v for t, v in res.items()}
+                rec['results'] = {str(t.k): {a: b for a, b in v.items() if a != 'produced_by'} for t, v in res.items()}
             except BaseException as e:
                 rec['status'] = 'raised ' + type(e).__name__ + ': ' + str(e)[:200]
                 rec['results'] = {}
@@ -56,12 +97,16 @@ def main():
             # stored entries (metadata without timestamps)
             stored = {}
             sdir = os.path.join(tmp, 's')
+            import hashlib
             for name in sorted(os.listdir(sdir)):
                 mp = os.path.join(sdir, name, 'metadata.json')
                 if os.path.isfile(mp):
                     md = json.load(open(mp))
                     md.pop('start_timestamp', None)
                     md.pop('duration_seconds', None)
+                    dp = os.path.join(sdir, name, 'data.pickle')
+                    if os.path.isfile(dp):
+                        md['data_sha1'] = hashlib.sha1(open(dp, 'rb').read()).hexdigest()
                     stored[name] = md
             rec['stored'] = stored
         finally:
